@@ -266,3 +266,20 @@ func TestASLimit(t *testing.T) {
 		}
 	}
 }
+
+func TestCrashSummary(t *testing.T) {
+	lg := "=== RUN   TestProp\nruntime: out of memory: cannot allocate 34229714944-byte block (100040704 in use)\nfatal error: out of memory\n\ngoroutine 41 gp=0x3a68 m=4 [running]:\nruntime.throw({0x7b4fdb?, 0x3fc001?})\n\t/go/src/runtime/panic.go:1229 +0x48\n" +
+		"reflect.MakeSlice({0x7ef728, 0x739540}, 0xff00001a, 0xff00001a)\n\t/go/src/reflect/value.go:3061 +0xa5\ngithub.com/jcmturner/rpc/v2/ndr.(*Decoder).fillUniDimensionalConformantArray(0x3a68, {0x73})\n\t/x/arrays.go:177 +0xfd\n" +
+		"github.com/jcmturner/gokrb5/v8/pac.(*KerbValidationInfo).Unmarshal(0x3a)\n"
+	s, jcm, ok := CrashSummary(lg)
+	if !ok || !jcm || s != "fatal error: out of memory @ github.com/jcmturner/rpc/v2/ndr." {
+		t.Fatalf("%q %v %v", s, jcm, ok)
+	}
+	if _, _, ok := CrashSummary("PASS\nok\n"); ok {
+		t.Fatal("summary of a clean log")
+	}
+	s, jcm, _ = CrashSummary("fatal error: stack overflow 1234 0xdead\nruntime.x()\n")
+	if jcm || s != "fatal error: stack overflow N N @ " {
+		t.Fatalf("%q", s)
+	}
+}
